@@ -3,24 +3,28 @@
 // C35 (stream state machine) harness commands.
 //
 // input  : [ [isw maxStreams] [ step ... ] ]         step = [op a b c d]
-//   op 1 HEADERS   a=stream id  b=END_STREAM  c=kind (0 POST request, 1 no pseudo-headers, 2 HEAD)  d=content-length (-1 none)
-//   op 2 DATA      a=stream id  b=data octets c=padding (-1: not padded, else pad length 0..255)    d=END_STREAM
-//   op 3 RST       a=stream id  b=error code
-//   op 4 WINUPD    a=stream id  b=increment (>=1)
-//   op 5 SETTINGS  a=INITIAL_WINDOW_SIZE value
-//   op 6 handler Read(a=stream id, b=buffer size >= 1)
-//   op 7 handler Body.Close(a=stream id)
-//   op 8 handler returns (a=stream id)
-//   op 9 PUSH_PROMISE a=stream id
+//
+//	op 1 HEADERS   a=stream id  b=END_STREAM  c=kind (0 POST request, 1 no pseudo-headers, 2 HEAD)  d=content-length (-1 none)
+//	op 2 DATA      a=stream id  b=data octets c=padding (-1: not padded, else pad length 0..255)    d=END_STREAM
+//	op 3 RST       a=stream id  b=error code
+//	op 4 WINUPD    a=stream id  b=increment (>=1)
+//	op 5 SETTINGS  a=INITIAL_WINDOW_SIZE value
+//	op 6 handler Read(a=stream id, b=buffer size >= 1)
+//	op 7 handler Body.Close(a=stream id)
+//	op 8 handler returns (a=stream id)
+//	op 9 PUSH_PROMISE a=stream id
+//
 // output : [ obs_1 ... obs_n final ]   obs_i = sorted list of events seen between the barriers
-//   [1 sid total]  sum of WINDOW_UPDATE increments for sid (0 = connection) in this step
-//   [2 sid code]   RST_STREAM
-//   [3 sid v]      response HEADERS, v = 2*status + END_STREAM
-//   [4 last code]  GOAWAY
-//   [5 0 p]        connection closed by the server (p = serve-loop panics counted by H2PanicConn)
-//   [6 sid r]      handler step result: Read n>0 octets -> n; EOF -> 0; would block -> -1; other error -> -2;
-//                  no running handler for sid -> -3; Close/return -> 0
-//   final = [total serve-loop panics]
+//
+//	[1 sid total]  sum of WINDOW_UPDATE increments for sid (0 = connection) in this step
+//	[2 sid code]   RST_STREAM
+//	[3 sid v]      response HEADERS, v = 2*status + END_STREAM
+//	[4 last code]  GOAWAY
+//	[5 0 p]        connection closed by the server (p = serve-loop panics counted by H2PanicConn)
+//	[6 sid r]      handler step result: Read n>0 octets -> n; EOF -> 0; would block -> -1; other error -> -2;
+//	               no running handler for sid -> -3; Close/return -> 0
+//	final = [total serve-loop panics]
+//
 // After GOAWAY or close the remaining steps are not executed (their obs is []).
 // Barrier after every step: two PING round trips (see DESIGN.md 8.2).
 package h2c33
